@@ -195,9 +195,9 @@ func c14GenKey(t *rapid.T, label string) (class, key string) {
 
 // ---- generator ----
 
-var c14DestNames = []string{"prod", "staging", "prød", "my env", "classic.prod", "classic.staging", "prod.x", "x", "Pre1.prod"}
+var c14DestNames = []string{"prod", "staging", "prød", "my env", "classic.prod", "classic.staging", "prod.x", "x", "Pre1.prod", ".x", ".prod"}
 var c14EnvNames = []string{"prod", "prod", "staging", "prød", "my env", "classic.prod", "unlisted-env"}
-var c14Datasets = []string{"prod", "prod", "staging", "x", "prød", "unlisted-ds"}
+var c14Datasets = []string{"prod", "prod", "staging", "x", "prød", "unlisted-ds", ".x", ".prod", ".", "..", "x."}
 var c14Prefixes = []string{"", "", "classic", "classic", "prod", "Pre1"}
 
 func genC14(t *rapid.T) c14Case {
@@ -208,6 +208,12 @@ func genC14(t *rapid.T) c14Case {
 	shapes := []string{"rules", "rules", "rules", "dynamic", "deterministic"}
 	c.Dests = []c14Dest{{Name: "__default__", Shape: rapid.SampledFrom(shapes).Draw(t, "default/shape")}}
 	names := rapid.SliceOfNDistinct(rapid.SampledFrom(c14DestNames), 1, 3, rapid.ID[string]).Draw(t, "destnames")
+	if rapid.IntRange(0, 9).Draw(t, "dotted-pair") < 3 {
+		// a name and the same name with a leading dot both have a sampler, so that
+		// confusing the two is visible in which sampler decides
+		pair := rapid.SampledFrom([][]string{{"x", ".x"}, {"prod", ".prod"}}).Draw(t, "dotted-pair/which")
+		names = append([]string(nil), pair...)
+	}
 	for _, n := range names {
 		c.Dests = append(c.Dests, c14Dest{Name: n, Shape: rapid.SampledFrom(shapes).Draw(t, n+"/shape")})
 	}
@@ -537,6 +543,9 @@ func execC14(c c14Case) vkit.Result {
 					kind = "dataset-name"
 					if c.Prefix != "" {
 						kind = "prefixed-dataset-name"
+					}
+					if strings.HasPrefix(tr.Dataset, ".") {
+						kind += "/dataset-with-leading-dot"
 					}
 				}
 				violate(fmt.Sprintf("C14/selector/%s/%s", verdict, kind),
